@@ -981,8 +981,8 @@ SETITEM_EP = {"cp": "tensorly.cp_tensor.CPTensor.__setitem__", "tucker": "tensor
 
 
 def ein_view(d, be, malformed, vl):
-    # the einsum TT-matrix route has its own model (Model/Factorized.v ttm_to_tensor_einsum)
-    return f"(VEin {vl})" if d["kind"] == "ttm" and be == "einsum" and not malformed else vl
+    # the einsum routes of CP (khatri_rao), Tucker (multi_mode_dot) and the TT-matrix have their own models in Model/Factorized.v
+    return f"(VEin {vl})" if d["kind"] in ("ttm", "cp", "tucker") and be == "einsum" and not malformed else vl
 
 
 def check_decomp(chk, d, rng, malformed, record=True):
@@ -1184,7 +1184,7 @@ def run(chk):
                        "the to_tensor routes are modelled for 2-D (and, rank 1, 1-D) CP factors, 2-D Tucker factors, 3-D TT/TR cores, 4-D TT-matrix cores; other ndims only through the validators",
                        "mixed-dtype / complex / half-integer factor sets are compared by VALUE after exact conversion (the model has no dtype); a complex array is split into two integer cases by linearity",
                        "NumPy reshape/moveaxis/transpose behave as modelled in Base/Tensor.v (validated by C01's primitive cases)"]
-    chk.trusted += ["einsum backend: the TT-matrix route is modelled separately (np.einsum sum-of-products semantics) and proved equal to the core route on well-formed input; for the other families the einsum backend only changes tenalg functions (C02) and is compared against the same model as the core backend",
+    chk.trusted += ["einsum backend: the einsum routes of CP (khatri_rao), Tucker (multi_mode_dot) and the TT-matrix are modelled separately (value of the single np.einsum call) and proved equal to the core routes on well-formed input; TT / TR / PARAFAC2 run the same code under both backends; on malformed operands only validators and core routes are compared",
                     "PARAFAC2 orthonormality threshold 1e-5 is modelled exactly (P^T P = I) which coincides on integer-valued projections"]
     _orig_load = C.load_known
 
